@@ -90,11 +90,12 @@ def letters(pal):
         "RMq": ("Rectifier", dict(vdrop=0.0, rs=_r(0.05 * kr), ig=_r(1e-4 * ki), iq=_r(5e-3 * ki))),  # quiescent current ABOVE io+ig at light load
         "CVq": ("Converter", dict(vo=_r(3.3 * kv), eff=_r(0.9 + de), iq=_r(8e-3 * ki))),
         "ILu": ("ILoad", dict(ii=_r(1e-3 * ki))),
+        "ILn": ("ILoad", dict(ii=5e-9)),   # a live nano-amp load (below numpy's default absolute tolerance)
     })
     return L
 
 
-SIG_ZERO = (["RL0", "VL0", "CVe", "LRe", "PS0", "RM0", "MX0", "CVc", "RMq", "CVq"], ["IL0", "PL0", "IL", "RO", "ILu"])
+SIG_ZERO = (["RL0", "VL0", "CVe", "LRe", "PS0", "RM0", "MX0", "CVc", "RMq", "CVq"], ["IL0", "PL0", "IL", "RO", "ILu", "ILn"])
 SIG_FULL = (["RL", "VLc", "VL1", "VL2", "CVc", "CV1", "CV2", "CVb", "CVi", "LRc", "LR1", "LR2", "LRd", "PSc", "PS1",
              "RDc", "RD1", "RMc", "RM1", "MX"], ["PL", "PLx", "IL", "ILx", "RO", "ROx"])
 SIG_MID = (["RL", "VL1", "CVc", "CV2", "LRc", "LRd", "PSc", "RDc", "RMc", "MX"], ["PL", "ILx", "RO"])
@@ -246,7 +247,7 @@ def build(spec, phases_first=False):
     return s
 
 
-def build_holes(spec):
+def build_holes(spec, analyse=False):
     """Same structure as build(spec), but reached through an edit history that leaves a freed node index in the middle and
     re-uses another one (dummy loads are added and deleted along the way): node indices != construction positions."""
     from sysloss.components import ILoad
@@ -267,6 +268,12 @@ def build_holes(spec):
             s.add_comp(par, comp=comp, group=c.get("g", ""), rail=c.get("r", ""))
         if j == k - 1 or (j == 0 and k == 1):
             s.add_comp(root, comp=ILoad("__dummy2", ii=0.001))
+            if analyse:  # an analysis in the MIDDLE of the edit history (anything it caches must not survive the edits that follow)
+                try:
+                    common.quiet_call(s.solve)
+                    s.params()
+                except (RuntimeError, ValueError):
+                    pass
             s.del_comp("__dummy1")
     if "__dummy1" in s._g.attrs["nodes"]:
         s.del_comp("__dummy1")
